@@ -8,7 +8,29 @@ import (
 )
 
 // Bench prints a few timings (development aid: `vworker bench`).
+func BenchChains() {
+	for _, d := range []int{5, 8, 10, 12, 14, 16, 20} {
+		body := c07Atom
+		for i := 0; i < d; i++ {
+			body = M("propertyConstraints", M("ex.c", c07Quant(0, body)))
+		}
+		prof := c07One(body)
+		t0 := time.Now()
+		q, r := Compile(prof)
+		t1 := time.Now()
+		if q == nil {
+			fmt.Println("depth", d, "compile failed", firstLine(r.ErrString()), t1.Sub(t0))
+			continue
+		}
+		rr := ValidateCompiled(q, `{}`)
+		t2 := time.Now()
+		fmt.Println("depth", d, "compile", t1.Sub(t0), "eval{}", t2.Sub(t1), rr.Err)
+	}
+}
+
 func Bench() {
+	BenchChains()
+	return
 	fs := PropFormulas(2, []int{1, 2, 3}, 3)
 	g, data := c01Graph("tt3")
 	_ = g
